@@ -190,6 +190,18 @@ def setTable (s : St) (x : Nat) (v : Option Nat) : St :=
              | none => s.lkeys.erase x
              | some _ => if (s.table x).isSome then s.lkeys else s.lkeys ++ [x] }
 
+/-- a new data dict object holding counter `v` -/
+def allocDict (s : St) (v : Nat) : St :=
+  { s with nextD := s.nextD + 1, dicts := fun k => if k = s.nextD then v else s.dicts k }
+
+def setDict (s : St) (d v : Nat) : St :=
+  { s with dicts := fun k => if k = d then v else s.dicts k }
+
+/-- `generate_id()` -/
+def allocId (s : St) : St := { s with nextId := s.nextId + 1 }
+
+def setLost (s : St) (b : Bool) : St := { s with lost := b }
+
 def bump (s : St) (x : Nat) : St :=
   { s with version := fun y => if y = x then s.version x + 1 else s.version y }
 
@@ -239,9 +251,9 @@ def stepReq (c : Cfg) (s : St) (i : Nat) : St :=
   match t.pc with
   | .init =>
     if (s.cache t.sid).isSome then setThr s i { t with pc := .setdef }
-    else setThr { s with nextId := s.nextId + 1 } i { t with pc := .gex, sid := s.nextId }
+    else setThr (allocId s) i { t with pc := .gex, sid := s.nextId }
   | .gex =>
-    if (s.cache t.sid).isSome then setThr { s with nextId := s.nextId + 1 } i { t with sid := s.nextId }
+    if (s.cache t.sid).isSome then setThr (allocId s) i { t with sid := s.nextId }
     else setThr s i { t with pc := .gone }
   | .setdef =>
     match s.table t.sid with
@@ -259,26 +271,22 @@ def stepReq (c : Cfg) (s : St) (i : Nat) : St :=
     | none => setThr s i { t with pc := .crashed }
   | .load => setThr s i { t with pc := .loadNow, raw := s.cache t.sid }
   | .loadNow =>
-    let fresh : St := { s with nextD := s.nextD + 1, dicts := fun k => if k = s.nextD then 0 else s.dicts k }
     match t.raw with
     | some (d, exp) =>
-      if exp < s.now then setThr fresh i (next fresh { t with d := s.nextD, loaded := true })
+      if exp < s.now then
+        setThr (allocDict s 0) i (next (allocDict s 0) { t with d := s.nextD, loaded := true })
       else if c.alias then setThr s i (next s { t with d := d, loaded := true })
       else
-        let cp : St := { s with nextD := s.nextD + 1,
-                                dicts := fun k => if k = s.nextD then s.dicts d else s.dicts k }
-        setThr cp i (next cp { t with d := s.nextD, loaded := true })
-    | none => setThr fresh i (next fresh { t with d := s.nextD, loaded := true })
+        setThr (allocDict s (s.dicts d)) i (next (allocDict s (s.dicts d)) { t with d := s.nextD, loaded := true })
+    | none => setThr (allocDict s 0) i (next (allocDict s 0) { t with d := s.nextD, loaded := true })
   | .write =>
-    let s1 : St := { bump s t.sid with dicts := fun k => if k = t.d then t.tmp + 1 else s.dicts k,
-                                       lost := s.lost || (t.seen != s.version t.sid) }
+    let s1 := setLost (setDict (bump s t.sid) t.d (t.tmp + 1)) (s.lost || (t.seen != s.version t.sid))
     setThr s1 i (next s1 t)
   | .clr =>
-    let s1 : St := { bump s t.sid with dicts := fun k => if k = t.d then 0 else s.dicts k }
+    let s1 := setDict (bump s t.sid) t.d 0
     setThr s1 i (next s1 t)
   | .del =>
-    let s1 : St := { setCache s t.sid none with
-                       nextD := s.nextD + 1, dicts := fun k => if k = s.nextD then 0 else s.dicts k }
+    let s1 := allocDict (setCache s t.sid none) 0
     setThr s1 i (next s1 { t with d := s.nextD, loaded := false })
   | .rdel => setThr (setCache s t.sid none) i { t with pc := .rlookup }
   | .rlookup =>
@@ -287,10 +295,10 @@ def stepReq (c : Cfg) (s : St) (i : Nat) : St :=
     | none => setThr s i { t with pc := .crashed }
   | .rrel =>
     match release s t.r (.req i) with
-    | some s' => setThr { s' with nextId := s.nextId + 1 } i { t with pc := .rex, sid := s.nextId }
+    | some s' => setThr (allocId s') i { t with pc := .rex, sid := s.nextId }
     | none => setThr s i { t with pc := .crashed }
   | .rex =>
-    if (s.cache t.sid).isSome then setThr { s with nextId := s.nextId + 1 } i { t with sid := s.nextId }
+    if (s.cache t.sid).isSome then setThr (allocId s) i { t with sid := s.nextId }
     else setThr s i { t with pc := .setdef }
   | .saveNow => setThr s i { t with pc := .save, texp := s.now + timeout }
   | .save => setThr (setCache s t.sid (some (t.d, t.texp))) i { t with pc := .lookup }
